@@ -280,6 +280,9 @@ def table_violations(rows, out, totals, limit_tag=""):
                 key="variants: PathPatternMatches(%s,%s)" % (rt.q(r["p"]), rt.q(r["path"])),
                 desc="PathPatternMatches(%s,%s) = %s but the OR over its enumerated variants is %s"
                      % (rt.q(r["p"]), rt.q(r["path"]), r["pattern"], r["variants"]), replay=r))
+        elif k == "hang":
+            out.append(Violation(key="enumerate-hang: %s" % rt.q(r["p"]),
+                                 desc="RenderAllVariants on the accepted pattern %s does not terminate (watchdog)" % rt.q(r["p"]), replay=r))
         elif k == "match-error":
             out.append(Violation(key="match-error", desc="PathPatternMatches returned an error %d times on parsed patterns" % r["n"], replay=r))
         elif k == "law":
